@@ -227,3 +227,97 @@ def fam_arc_arc_circles(R, tvals=(0.5, 0.5, 0.5, 0.5), mode='candidates', sign=0
         R.ob('pair-reported-iff-both-parameters-in-range', ctx, z3.BoolVal(inr == rep), cex=cex, robust=robust)
         if R.paths % 10 == 1:
             R.sample({'candidates': len(cands), 'pairs': len(r)})
+
+
+def fam_arc_bezier_polynomial(R, deg, rot='p37', radii=(2.0, 1.0)):
+    """Arc.intersect(Bezier) / rotated Arc.intersect(Line): the polynomial whose roots in [0,1] are taken as the curve parameters of the
+    crossings is |u1(B(t))|^2 - 1, u1 the map of the arc's ellipse onto the unit circle: it vanishes exactly where the curve meets the
+    full ellipse.  polyroots01 is a recorder; real/imag/poly1d arithmetic of numpy runs on symbolic coefficients."""
+    import numpy as np
+    import svgpathtools.path as P
+    from svgpathtools.path import Arc
+    from . import c04
+    from .c03 import bern
+    from .c11 import cls_of
+    P.np = NPProxy()
+    d_, c_, s_ = c04.ROTATIONS[rot]
+    R.bound(degree=deg, rotation=rot, arc='centre symbolic, radii %r' % (radii,), curve='symbolic control points')
+    R.stub('polyroots01 -> recorder of the polynomial', 'Arc._parameterize -> free centre; rot_matrix = the rational (cos, sin) of the family')
+    cap = {}
+    orig = Arc._parameterize
+
+    def run():
+        cx = Ctx.cur
+        ctr = symc('ctr')
+        rx, ry = lift(radii[0]), lift(radii[1])     # concrete: numpy divides a poly1d by a scalar only if numpy knows it as a scalar
+
+        def fake(self):
+            self.center = ctr
+            self.theta = self.delta = None
+        Arc._parameterize = fake
+        cx.assume(z3.Not(ceq(symc('a0'), symc('a1'))))
+        try:
+            arc = Arc(symc('a0'), complex(*radii), 30.0 if rot != '0' else 0.0, True, True, symc('a1'))
+            arc.rot_matrix = SC(SR(z3.RealVal(str(c_))), SR(z3.RealVal(str(s_))))
+            arc.rotation = d_ if rot != '0' else 7.0        # a non-zero rotation keeps Line out of the closed-form branch
+            ps = [symc('p%d' % i) for i in range(deg + 1)]
+            cx.assume(z3.Not(ceq(ps[0], ps[-1])), z3.Not(ceq(symc('a0'), symc('a1'))))
+            seg = cls_of(deg)(*ps)
+
+            def rec(p):
+                cap['p'] = list(np.asarray(p.coeffs if hasattr(p, 'coeffs') else p))
+                return []
+            with patched(P, polyroots01=rec):
+                arc.intersect(seg)
+            return arc, ctr, rx, ry, ps, cap.get('p')
+        finally:
+            Arc._parameterize = orig
+
+    for ctx, (kind, val) in explore(run, maxpaths=60):
+        R.path(ctx, nontrivial=True)
+        if kind != 'ok':
+            R.unexpected(ctx, 'unexpected %s %r' % (kind, val))
+            continue
+        arc, ctr, rx, ry, ps, co = val
+        if co is None:
+            R.ob('root-polynomial-handed-to-polyroots01', ctx, z3.BoolVal(False))
+            continue
+        t = symr('t')
+        v = lift(0)
+        for cf in co:
+            v = v * t + (cf.real if isinstance(cf, SC) else cf)
+        z = bern(ps, t) - ctr
+        cc, ss = SR(z3.RealVal(str(c_))), SR(z3.RealVal(str(s_)))
+        xr, yr = cc * z.real + ss * z.imag, -ss * z.real + cc * z.imag          # R(-phi)(B(t) - c)
+        want = xr * xr / (rx * rx) + yr * yr / (ry * ry) - 1
+        R.ob_eq('deg%d.root-polynomial=implicit-ellipse-equation-along-the-curve' % deg, ctx, lift(v).e, want.e, timeout_ms=90000,
+                cex=lambda m: {'cls': 'Arc x Bezier root polynomial', 'inputs': {'rx': mval(m, rx), 'ry': mval(m, ry)}, 'script': REPLAY_PHASE_PROXY})
+        R.sample({'degree': deg, 'rotation': rot, 'polynomial_degree': len(co) - 1})
+
+
+REPLAY_PHASE_PROXY = '''
+import math
+curves = [Line(-3-2j, 5+4j), QuadraticBezier(-2-2j, 1+6j, 4-2j), CubicBezier(-3+0j, 0+4j, 2-4j, 5+1j)]
+for rot in (30, -75, 110):
+    for la in (0, 1):
+        arc = Arc(0j, 2+1j, rot, la, 1, 3+1j)
+        for cv in curves:
+            r = arc.intersect(cv)
+            for t1, t2 in r:
+                if not (0 <= t1 <= 1 and 0 <= t2 <= 1) or abs(arc.point(t1) - cv.point(t2)) > 1e-3:
+                    REPRODUCED('%r.intersect(%r) = %r: points %r / %r' % (arc, cv, r, arc.point(t1), cv.point(t2)))
+            def f(z):
+                w = (z - arc.center) / arc.rot_matrix
+                return (w.real / arc.radius.real) ** 2 + (w.imag / arc.radius.imag) ** 2 - 1
+            N = 2000; pts = [arc.point(i / N) for i in range(N + 1)]
+            M = 2000; pv = f(cv.point(0))
+            for i in range(1, M + 1):
+                cur = f(cv.point(i / M))
+                if pv * cur < 0:
+                    z = cv.point((i - .5) / M)
+                    k = min(range(N + 1), key=lambda k_: abs(z - pts[k_]))
+                    if abs(z - pts[k]) < 5e-3 and 0.01 < k / N < 0.99 and 0.01 < (i - .5) / M < 0.99:
+                        if not any(abs(a - k / N) < 5e-3 and abs(b - (i - .5) / M) < 5e-3 for a, b in r):
+                            REPRODUCED('%r crosses %r near arc parameter %r but intersect() = %r' % (arc, cv, k / N, r))
+                if cur != 0: pv = cur
+'''
